@@ -174,6 +174,81 @@ pub fn check_extreme(c: &ExtremeCase) -> CheckResult {
     Ok(CaseInfo::new(true).class(ty.name()).class(if c.ones { "field=MAX" } else { "field=0" }))
 }
 
+/// A constructor fed by a source that starts with very many all-zero blocks, executed in a child
+/// process on a thread with a small stack: recursion instead of a loop in a redraw path overflows
+/// the stack, which no `catch_unwind` can see (the process is killed by a signal).
+#[derive(Clone, Debug, Serialize, Deserialize)]
+pub struct DeepCase {
+    pub ty: Ty,
+    pub zero_blocks: usize,
+    pub try_route: bool,
+    pub stack_kib: usize,
+}
+
+/// child side (`vcheck --deep-ctor`, case as JSON on stdin)
+pub fn deep_ctor_main() {
+    let mut text = String::new();
+    use std::io::Read;
+    std::io::stdin().read_to_string(&mut text).expect("stdin");
+    let c: DeepCase = serde_json::from_str(&text).expect("case json");
+    let h = std::thread::Builder::new()
+        .stack_size(c.stack_kib.max(64) * 1024)
+        .spawn(move || {
+            let len = c.ty.info().seed_len;
+            let spec = crate::src::SrcSpec { prefix: vec![0u8; c.zero_blocks * len], salt: 5, words_differ: false };
+            let mut g = if c.try_route {
+                match adapter::try_from_rng(c.ty, &mut crate::src::FailSrc::new(spec, None, 7)) {
+                    Ok(g) => g,
+                    Err(_) => return "error".to_string(),
+                }
+            } else {
+                adapter::from_rng(c.ty, &mut crate::src::ByteSrc::new(spec))
+            };
+            format!("{:#x} {:#x}", g.next_native(), g.next_native())
+        })
+        .expect("spawn");
+    match h.join() {
+        Ok(s) => println!("ok {}", s),
+        Err(_) => println!("panic {}", crate::engine::take_last_panic().unwrap_or_default()),
+    }
+}
+
+pub fn check_deep(c: &DeepCase) -> CheckResult {
+    use std::io::Write;
+    let exe = std::env::current_exe().map_err(|e| Fail::inconclusive("C14:child-process", e.to_string()))?;
+    let mut child = std::process::Command::new(exe)
+        .arg("--deep-ctor")
+        .stdin(std::process::Stdio::piped())
+        .stdout(std::process::Stdio::piped())
+        .stderr(std::process::Stdio::null())
+        .spawn()
+        .map_err(|e| Fail::inconclusive("C14:child-process", e.to_string()))?;
+    child.stdin.take().unwrap().write_all(serde_json::to_string(c).unwrap().as_bytes()).map_err(|e| Fail::inconclusive("C14:child-process", e.to_string()))?;
+    let out = child.wait_with_output().map_err(|e| Fail::inconclusive("C14:child-process", e.to_string()))?;
+    let text = String::from_utf8_lossy(&out.stdout).to_string();
+    let route = if c.try_route { "try_from_rng" } else { "from_rng" };
+    if !out.status.success() {
+        return Err(Fail::new(format!("C14:process-killed:{}:{}", c.ty.name(), route), format!("{} over a source that starts with {} all-zero blocks killed the process ({:?}) on a thread with a {} KiB stack: unbounded recursion / stack overflow instead of a loop", route, c.zero_blocks, out.status, c.stack_kib)));
+    }
+    if let Some(rec) = text.strip_prefix("panic ") {
+        return Err(Fail::new(panic_signature(rec.trim()), format!("{} over a source that starts with {} all-zero blocks panicked: {}", route, c.zero_blocks, rec.trim())));
+    }
+    Ok(CaseInfo::new(c.zero_blocks > 0).class(route).class(format!("zero-blocks:{}", c.zero_blocks)))
+}
+
+/// a JitterRng whose timer closure draws from another JitterRng on the same thread: no call of
+/// either may panic (the values are C19's subject)
+pub fn check_nested_timer(c: &crate::props::c19::NestedTimerCase) -> CheckResult {
+    for nested in [false, true] {
+        for (k, v) in crate::props::c19::nested_timer_trace(c, nested).iter().enumerate() {
+            if let Some(sig) = v.strip_prefix("<panic: ") {
+                return Err(Fail::new(format!("panic:{}", sig.trim_end_matches('>').trim_start_matches("panic:")), format!("op #{} {:?} of a JitterRng {} panicked", k, c.ops.get(k), if nested { "whose timer closure draws from another JitterRng on the same thread" } else { "over a scripted timer" })));
+            }
+        }
+    }
+    Ok(CaseInfo::new(!c.ops.is_empty()).class("nested-timer"))
+}
+
 pub fn check_jit(c: &JitCase) -> CheckResult {
     let script = c.prog.script();
     let mut g = adapter::jitter_gen(script.clone(), c.rounds0, 3_000_000);
@@ -356,6 +431,34 @@ pub fn def(ctx: &Ctx) -> PropDef {
     }
     // a stuck timer for a very long time that then recovers: retry counters of any width up to
     // 2^16 wrap (70 000 consecutive stuck measurements = 210 000 equal readings)
+    subs.push(PSub::boxed(
+        "jitter/nested-timer",
+        t.pick(300, 30_000),
+        || {
+            let ops = proptest::collection::vec(prop_oneof![8 => crate::props::c12::jop(12), 1 => Just(JOp::TestTimer)], 1..=4);
+            (gens::timer_prog(false, 6), gens::timer_prog(false, 4), 1u8..=3, ops, prop_oneof![3 => Just(1usize), 2 => 2usize..=7]).prop_map(|(outer, inner, rounds, ops, every)| crate::props::c19::NestedTimerCase { outer, inner, rounds, ops, every }).boxed()
+        },
+        check_nested_timer,
+    ));
+    // every type x both source routes x two depths, each in a child process on a 512 KiB stack
+    subs.push(crate::engine::ESub::boxed(
+        "deep-zero-source",
+        80,
+        || {
+            let mut v = Vec::new();
+            for ty in Ty::ALL {
+                for try_route in [false, true] {
+                    for zero_blocks in [20_000usize, 200_000] {
+                        // the block generators read one large key: a few blocks are already "deep"
+                        let zb = if ty.info().seed_len > 64 { zero_blocks / 1000 } else { zero_blocks };
+                        v.push(DeepCase { ty, zero_blocks: zb, try_route, stack_kib: 512 });
+                    }
+                }
+            }
+            v
+        },
+        check_deep,
+    ));
     // every stuck length x both kinds, enumerated: a timer that stands still (or ticks perfectly
     // evenly) for 900 / 2 400 / 15 000 / 210 000 readings inside one collection and then recovers
     subs.push(crate::engine::ESub::boxed(
